@@ -9,7 +9,7 @@ use crate::genp::project::{GenCfg, generate};
 use crate::harness::{self, Evidence, Opts, Tier, Violation};
 use crate::ops::{self, Layout, RunSummary};
 use crate::prng::{Prng, mix, purpose};
-use crate::world::{Files, ProcSpec, Sandbox, sha};
+use crate::world::{Exit, Files, ProcSpec, Sandbox, sha};
 use serde_json::{Value, json};
 use std::collections::BTreeMap;
 
@@ -111,6 +111,32 @@ pub fn execute(sb: &Sandbox, files: &Files, layout: &Layout, topo: Option<&[Stri
         );
         for (path, bytes) in sep.artifacts {
             obs.insert(format!("artifact:{path}"), sb.normalise(&String::from_utf8_lossy(&bytes)));
+        }
+        // several unusable dependencies at once: which one `check` / `build` complains about
+        // must not depend on the hash seed (all interfaces missing; all interfaces cut in half)
+        if let Some(pk) = order.iter().map(|n| &layout.pkgs[n]).find(|p| p.imports.len() >= 2) {
+            let ifaces: Vec<String> = sb.snapshot().keys().filter(|k| k.starts_with("out/") && k.ends_with(".interface")).cloned().collect();
+            for (tag, cut) in [("corrupt", true), ("missing", false)] {
+                for f in &ifaces {
+                    if cut {
+                        if let Some(b) = sb.read(f) {
+                            sb.write(f, &b[..b.len() / 2]);
+                        }
+                    } else {
+                        sb.remove(f);
+                    }
+                }
+                for cmd in ["check", "build"] {
+                    let args = ops::pkg_args(sb, cmd, pk, &["out".to_string()], "out3", &mut Prng::new(cfg.order));
+                    let r = ops::goml(sb, &spec, args);
+                    procs += 1;
+                    let msg = match &r.exit {
+                        Exit::Err(m) => sb.normalise(m),
+                        other => other.class().to_string(),
+                    };
+                    obs.insert(format!("sep:{tag}-deps:{cmd}"), msg);
+                }
+            }
         }
     }
     (obs, procs, dir_orders)
